@@ -27,7 +27,8 @@ def short_fn(fid):
 
 
 class Renderer:
-    def __init__(self, func=None, inline_locals=True, keep_casts=False, param_names=False, env=None):
+    def __init__(self, func=None, inline_locals=True, keep_casts=False, param_names=False, env=None, flatten=False):
+        self.flatten = flatten
         self.locals = {}
         self.keep_casts = keep_casts
         self.param_names = param_names
@@ -107,6 +108,21 @@ class Renderer:
             return inner
         if k in ('bin', 'assign'):
             op = e.get('op')
+            if self.flatten and k == 'bin' and op in ('+', '*', '|', '&', '^', '&&', '||'):
+                # associative-commutative normal form: (op a b c ...) with sorted operands
+                ops = []
+
+                def gather(x):
+                    x2 = x
+                    while isinstance(x2, dict) and x2.get('k') == 'cast' and 'cv' not in x2:
+                        x2 = x2.get('e')
+                    if isinstance(x2, dict) and x2.get('k') == 'bin' and x2.get('op') == op and const_value(x2) is None:
+                        gather(x2.get('lhs'))
+                        gather(x2.get('rhs'))
+                    else:
+                        ops.append(self.r(x, depth + 1))
+                gather(e)
+                return '(%s %s)' % (op, ' '.join(sorted(ops)))
             l = self.r(e.get('lhs'), depth + 1)
             rr = self.r(e.get('rhs'), depth + 1)
             if op in COMMUTATIVE and rr < l:
